@@ -91,3 +91,11 @@ package eventlog
 //@   ensures[C18] err == nil ==> len(b.Data) <= 4294967295 && wrLen[ref(w)] == old(wrLen)[ref(w)] + 4 + len(b.Data) && lg32(wrLog[ref(w)], old(wrLen)[ref(w)]) == len(b.Data)
 //@   ensures[C18] err == nil ==> forall(k, 0 <= k && k < len(b.Data) ==> wrLog[ref(w)][old(wrLen)[ref(w)] + 4 + k] == bytesAt(b.Data, k))
 //@   ensures[C18] forall(r, Int, r != ref(w) ==> wrLen[r] == old(wrLen)[r] && wrLog[r] == old(wrLog)[r])
+
+// C18 (size-exact, strict): a tagged digest is encoded only when its length is the digest size of its algorithm; the
+// encoding is the 2-byte algorithm id followed by exactly that many digest bytes.
+//@ func (*TaggedDigest).Marshal
+//@   requires d != nil && w != nil
+//@   assigns nothing
+//@   modifies wrLen, wrLog
+//@   ensures[C18] err == nil ==> has(tpmAlgoSize, d.AlgID) && len(d.Digest) == tpmAlgoSize[d.AlgID]
